@@ -174,7 +174,7 @@ fn gen_unit_bytes(rng: &mut Rng) -> (Vec<u8>, usize) {
         7 => vec![0x09],
         8 | 9 => {
             let mut v = vec![0x1b, b'['];
-            let m = if rng.chance(10) { 40 } else { 4 };
+            let m = if rng.chance(2) { 300 } else if rng.chance(10) { 40 } else { 4 };
             for _ in 0..rng.below(m) {
                 v.push(rng.range(0x20, 0x3f) as u8);
             }
@@ -424,5 +424,42 @@ pub fn run_scalars(args: &Args, rep: &mut Report) {
         }
         rep.distinct_disjoint += n;
         rep.count_n("c04.scalars", n);
+        if c == 0 {
+            // lengths that no longer fit one or two octets: "any parameter bytes", "N consecutive terminators yield N Enters"
+            for len in [15usize, 16, 17, 31, 32, 33, 63, 64, 65, 127, 128, 129, 254, 255, 256, 257, 511, 512, 513, 1023, 1024, 1025, 4095, 4096, 4097, 65534, 65535, 65536, 65537, 70001] {
+                let mut streams: Vec<(&str, Vec<u8>)> = vec![];
+                for fin in [b'A', b'D', b'~'] {
+                    let mut v = vec![0x1b, b'['];
+                    v.extend((0..len).map(|i| 0x20 + ((i * 7 + len) % 0x20) as u8));
+                    v.push(fin);
+                    v.extend_from_slice(b"x\x1b[B[\r");
+                    streams.push(("long-csi", v));
+                }
+                streams.push(("cr-run", vec![b'\r'; len]));
+                streams.push(("lf-run", vec![b'\n'; len]));
+                streams.push(("crlf-run", b"\r\n".iter().cycle().take(2 * len).cloned().collect()));
+                streams.push(("lfcr-run", b"\n\r".iter().cycle().take(2 * len + 1).cloned().collect()));
+                streams.push(("char-run", "é".as_bytes().iter().cycle().take(2 * len).cloned().collect()));
+                for (what, st) in streams {
+                    let mut real = InputGenerator::new();
+                    let mut rf = RefDecoder::new();
+                    rep.count("c04.long_streams");
+                    for (bi, &b) in st.iter().enumerate() {
+                        let e = rf.accept(b);
+                        let r = shadow_accept(&mut real, b);
+                        rep.evaluations += 1;
+                        let same = match (&r, &e) {
+                            (Shadow::None, None) => true,
+                            (Shadow::Key(k), Some(k2)) => k == k2,
+                            _ => false,
+                        };
+                        if !same {
+                            report(rep, args, "C04", "decoder-lockstep", &format!("{}-{}", what, if len > 65000 { "over-65535" } else if len > 250 { "over-255" } else { "short" }), c, 1, J::s(format!("{} of length {}", what, len)), format!("{} of {} units: at byte {} the decoder yields {:?}, the statement requires {:?}", what, len, bi, r, e));
+                            break;
+                        }
+                    }
+                }
+            }
+        }
     });
 }
